@@ -145,7 +145,7 @@ def main():
       ],
       "checks": checks,
       "not_applicable": na,
-      "notes": "All checks are exhaustive enumerations inside stated bounds (no sampling; VERIF_SEED is recorded and ignored). See DESIGN.md. Known findings and repaired defects: known_findings.jsonl (one known finding, C06, identified by mechanism; see DESIGN.md 8.3b). Seeded changes used to test detection: seeded/.",
+      "notes": "All checks are exhaustive enumerations inside stated bounds (no sampling; VERIF_SEED is recorded and ignored). See DESIGN.md. Known findings and repaired defects: known_findings.jsonl (one known finding, C06, identified by mechanism; see DESIGN.md 8.3b). Seeded changes used to test detection: seeded/ (tools/regress_seeds.sh re-runs them all; seeded_rejected/ holds a change that breaks no property as worded). A subject that crashes or does not return on an explored input is reported as a violation of the property being checked (signal mapping in ./check, evaluation watchdog in the engine).",
     }
     json.dump(m, open("/verif/MANIFEST.json", "w"), indent=1)
     print("wrote MANIFEST.json with", len(checks), "checks,", len(na), "not_applicable")
